@@ -12,6 +12,7 @@ import CobaVerif.Lemmas.C16
 import CobaVerif.Lemmas.C16Real
 import CobaVerif.Lemmas.C16Gen
 import CobaVerif.Lemmas.C16Safe
+import CobaVerif.Lemmas.C16Float
 
 namespace Coba.C16
 open Coba.C05 (next)
@@ -441,5 +442,114 @@ theorem bandit_consts_match :
     ((0 : Rat) ≤ (Coba.Generated.C16.epsDefaultNum : Rat) / Coba.Generated.C16.epsDefaultDen ∧
         (Coba.Generated.C16.epsDefaultNum : Rat) / Coba.Generated.C16.epsDefaultDen ≤ 1) ∧
     ((Coba.Generated.C16.ucbVarCapNum : Rat) / Coba.Generated.C16.ucbVarCapDen = 1 / 4) := bandit_consts_match'
+
+/-! ## Phase 5: `CorralLearner.learn` in floats -/
+
+/-- **p̄-smoothing through `fl`**: `[(1-self._gamma)*p + self._gamma*1/len(self._base_lrns) for p in self._ps]` operation by operation
+(`smoothF`, five roundings per entry, three deep; with `flDouble` equal to the real `_p_bars` bit for bit on every generated `learn`): under
+the float law `FlRel u fl`, u < 1, for EVERY γ ∈ [0,1] (every T ≥ 1, including T = ∞ → γ = 0 and T = 1 → γ = 1) and every strictly positive
+weight vector, every smoothed weight is STRICTLY positive and their sum lies within `(1±u)^3` of `(1-γ)Σp + γ` (= 1 when Σp = 1) -/
+theorem pbar_smoothing_float_simplex {u : Rat} {fl : Rat → Rat} (h : FlRel u fl) (hu : u < 1) (gamma : Rat) (g0 : 0 ≤ gamma) (g1 : gamma ≤ 1)
+    (ps : List Rat) (hne : ps ≠ []) (hpos : ∀ p ∈ ps, 0 < p) :
+    (∀ q ∈ smoothF fl gamma ps.length ps, 0 < q) ∧
+      (1 - u) ^ 3 * ((1 - gamma) * ps.sum + gamma) ≤ (smoothF fl gamma ps.length ps).sum ∧
+      (smoothF fl gamma ps.length ps).sum ≤ (1 + u) ^ 3 * ((1 - gamma) * ps.sum + gamma) :=
+  smoothF_simplex h hu gamma g0 g1 ps hne hpos
+
+/-- the hypotheses are satisfiable (exact arithmetic is a float law with u = 0 whose `sum` is exact) -/
+example : FlRel 0 (fun x => x) ∧ SumRel 0 (fun x => x) := ⟨flRel_id, sumRel_id⟩
+
+/- FULL STATEMENT (not proved): the next two theorems without the hypothesis `SumRel τ fl`.
+   MISSING (as for `corral_float_weights_sum_partial`): an error bound τ for CPython's compensated `sum` (`pySum`, Neumaier) under
+   `FlRel` — a bound independent of the length does not follow from `FlRel` alone (the compensation term is itself rounded); observed ≤ 2^-52
+   on every generated update.  Everything else of `learn` is covered: losses, root search, normalisation, smoothing, η/ρ schedule. -/
+
+/-- **one float-faithful `learn` keeps the weights in the float simplex, for all T**: `Corral.learnF` is `CorralLearner.learn`'s state update
+operation by operation through `fl` (`loss/probability*(A==action)`, the float root search `omdF`, `[p/total …]`, the p̄-smoothing, the η/ρ
+schedule; with `flDouble` whole histories equal the real `_ps/_p_bars/_etas/_rhos` bit for bit, driver op `corral_runF`).  Whenever it returns,
+the new state again has all weights, all smoothed weights and all learning rates STRICTLY positive (`CorralF.Inv`), Σ`_ps` ∈
+[(1-u)/(1+τ), (1+u)/(1-τ)] and Σ`_p_bars` within `(1±u)^3` of `(1-γ)Σ_ps + γ` (`SimplexF`) — for every γ ∈ [0,1], β > 0, reward, probability,
+base-learner choices, from ANY state satisfying the invariant (not only states whose weights sum to 1: nothing accumulates over rounds) -/
+theorem corral_float_learn_simplex_partial {u τ : Rat} {fl : Rat → Rat} (h : FlRel u fl) (hu : u < 1) (hs : SumRel τ fl) (hτ0 : 0 ≤ τ) (hτ1 : τ < 1)
+    (fuel : Nat) (c : Corral) (hinv : CorralF.Inv c) (g0 : 0 ≤ c.gamma) (g1 : c.gamma ≤ 1) (hb : 0 < c.beta)
+    (bacts : List Act) (hlen : bacts.length = c.ps.length) (a : Act) (r p : Rat) (c' : Corral) (hh : Bool)
+    (hres : c.learnF fl fuel bacts a r p = .ok (c', hh)) :
+    CorralF.Inv c' ∧ SimplexF u τ c' ∧ c'.gamma = c.gamma ∧ c'.beta = c.beta ∧ c'.ps.length = c.ps.length :=
+  Corral.learnF_inv h hu hs hτ0 hτ1 fuel c hinv g0 g1 hb bacts hlen a r p c' hh hres
+
+/-- **whole float histories**: every state the float-faithful Corral visits along ANY sequence of `learn` calls (any length, any rewards /
+probabilities / base choices) is in the float simplex; by induction over the history with `corral_float_learn_simplex_partial` -/
+theorem corral_float_run_simplex_partial {u τ : Rat} {fl : Rat → Rat} (h : FlRel u fl) (hu : u < 1) (hs : SumRel τ fl) (hτ0 : 0 ≤ τ) (hτ1 : τ < 1)
+    (fuel : Nat) (ops : List (List Act × Act × Rat × Rat)) (c : Corral) (hinv : CorralF.Inv c) (g0 : 0 ≤ c.gamma) (g1 : c.gamma ≤ 1)
+    (hb : 0 < c.beta) (hops : ∀ o ∈ ops, o.1.length = c.ps.length) :
+    ∀ x ∈ runCF fl fuel c ops, ∀ c' hh, x = .ok (c', hh) → CorralF.Inv c' ∧ SimplexF u τ c' :=
+  runCF_inv h hu hs hτ0 hτ1 fuel ops c hinv g0 g1 hb hops
+
+/-- the history may start at `CorralLearner(M base learners, eta > 0)`'s initial state -/
+theorem corral_float_init_inv {u : Rat} {fl : Rat → Rat} (h : FlRel u fl) (hu : u < 1) (M : Nat) (hM : 0 < M) (eta gamma beta : Rat)
+    (heta : 0 < eta) (imp : Bool) (rng : Nat) : CorralF.Inv (Corral.init fl M eta gamma beta imp rng) :=
+  Corral.init_invF h hu M hM eta gamma beta heta imp rng
+
+/-- binary64 (u = 2^-53) with a `sum` accurate to 2^-50: "in the float simplex" means both Σ`_ps` and Σ`_p_bars` within 1e-4 of 1 — the
+property's own accuracy clause, with an order of magnitude to spare -/
+theorem corral_float_simplex_double (c : Corral) (g0 : 0 ≤ c.gamma) (g1 : c.gamma ≤ 1) (hS : SimplexF (1 / 2 ^ 53) (1 / 2 ^ 50) c) :
+    |c.ps.sum - 1| ≤ 1 / 10000 ∧ |c.pbars.sum - 1| ≤ 1 / 10000 :=
+  simplexF_double c g0 g1 hS
+
+/-- **`accepts` is decidable at every depth**: the forced hypothesis of `corral_nested_valid` is, for every nesting depth n, exactly the
+executable recursive predicate `acceptsB` (reward after the Misguided wrappers in [0,1], probability ≠ 0, and recursively for every base
+learner with the feedback its Corral hands it: `reward·1[A_j = action]/probability` in importance mode, the reward passed through in
+off-policy mode).  The driver evaluates `acceptsB flDouble 2` on every nested Corral round and the harness compares it with whether the real
+`learn` raises the AssertionError of an inner Corral. -/
+theorem accepts_iff_acceptsB (fl : Rat → Rat) (n : Nat) (s : (tower fl n).σ) (a : Act) (r p : Rat) :
+    (towerLaws fl n).accepts s a r p ↔ acceptsB fl n s a r p = true :=
+  accepts_iff_acceptsB' fl n s a r p
+
+/-- the importance-mode witness of `corral_importance_feedback_unbounded` through the predicate: an importance Corral over a Corral, the inner
+one chose the played action, reward 1 at probability 1/2 → not accepted; the same composition off-policy → accepted -/
+example : acceptsB (fun x => x) 2 (accTop true) 0 1 (1 / 2) = false ∧ acceptsB (fun x => x) 2 (accTop false) 0 1 (1 / 2) = true := by
+  decide +kernel
+
+/-- **off-policy feedback passes the reward through** (generalises `corral_over_plain_accepts_iff` from plain base learners to ANY base
+learners): an off-policy Corral that has predicted accepts (a, r, p) ⇔ its own reward r' (after its wrappers) is in [0,1], p ≠ 0 and EVERY
+base learner accepts the very same (a, r', p) -/
+theorem corral_over_any_offpolicy_accepts_iff (fl : Rat → Rat) {B : Base} (h : B.Laws) (s : (corralOver fl B).σ) (a : Act) (r p : Rat)
+    (hoff : s.c.importance = false) (hlen : s.lastActs.length = s.bases.length) :
+    (corralLaws fl h).accepts s a r p ↔
+      (0 ≤ misguide fl s.mis r ∧ misguide fl s.mis r ≤ 1 ∧ p ≠ 0 ∧ ∀ b ∈ s.bases, h.accepts b a (misguide fl s.mis r) p) :=
+  offpolicy_accepts_iff' fl h s a r p hoff hlen
+
+/-- hence in a tower of ANY depth whose Corrals all run off-policy without Misguided wrappers the forced hypothesis disappears: the property's
+own precondition (reward in [0,1], probability ≠ 0) is enough for `learn` to succeed at every level (`corral_nested_valid`) -/
+theorem corral_offpolicy_tower_accepts (fl : Rat → Rat) (n : Nat) (s : (tower fl n).σ) (a : Act) (r p : Rat)
+    (hs : offPolicyPlain fl n s) (h0 : 0 ≤ r) (h1 : r ≤ 1) (hp : p ≠ 0) : (towerLaws fl n).accepts s a r p :=
+  offpolicy_tower_accepts' fl n s a r p hs h0 h1 hp
+
+/-- the memoised state `stAfter` of `safe_wrapper_identity`, field by field — what the harness reads off the real SafeLearner after the first
+`predict` of every SafeLearner-wrapped case: `_pred_batch == 'not'`, `_pred_kwargs == kw` (False for the plain learners, True for Corral's
+`{'info': …}`), `_pred_format == 'AP'` -/
+theorem safe_state_after (kw : Bool) (st : Coba.C15.State) :
+    (Coba.C15.stAfter (safeSpec kw) false st st.rng).layout = some Coba.C15.BLayout.not ∧
+    (Coba.C15.stAfter (safeSpec kw) false st st.rng).hasKw = kw ∧
+    (Coba.C15.stAfter (safeSpec kw) false st st.rng).fmt = some ⟨Coba.C15.Kind.AP, false⟩ ∧
+    (Coba.C15.stAfter (safeSpec kw) false st st.rng).method = some 1 :=
+  safe_state_after' kw st
+
+/-- **translator obligations, update expressions**: `harness/props/c16.py` re-translates on every run (Python `ast`) the p̄-smoothing, the ρ threshold
+and the new ρ of `CorralLearner.learn`, BanditEpsilon's `alpha` and `Q` update and BanditUCB's running mean from the repo under test into `Ex`
+programs (`Generated/C16Exprs.lean`).  Their float evaluation `Ex.evalF fl` (every `+ - * /` rounded, int literals exact) IS what the model's
+`pbarF`, `etaRhoF`, `Eps.learn`, `Ucb.learn` compute, for every `fl`: an edit of one of these source expressions breaks this proof. -/
+theorem update_exprs_match (fl : Rat → Rat) :
+    (∀ (gamma p : Rat) (M : Nat), Ex.evalF fl [gamma, p, (M : Rat)] Coba.Generated.C16.pbarExpr = pbarF fl gamma M p) ∧
+    (∀ (beta pb e rh : Rat) (pbs es rhs : List Rat), etaRhoF fl beta (pb :: pbs) (e :: es) (rh :: rhs) =
+        if rh < Ex.evalF fl [pb] Coba.Generated.C16.rhoThrExpr
+        then (fl (e * beta) :: (etaRhoF fl beta pbs es rhs).1, Ex.evalF fl [pb] Coba.Generated.C16.rhoNewExpr :: (etaRhoF fl beta pbs es rhs).2)
+        else (e :: (etaRhoF fl beta pbs es rhs).1, rh :: (etaRhoF fl beta pbs es rhs).2)) ∧
+    (∀ (st : Eps) (a : Act) (r : Rat), (Eps.learn fl st a r).Q =
+        dset st.Q a (Ex.evalF fl [Ex.evalF fl [(st.n a : Rat)] Coba.Generated.C16.epsAlphaExpr, st.q a, r] Coba.Generated.C16.epsQExpr)) ∧
+    (∀ (st : Ucb) (a : Act) (r mv : Rat) (sv : Nat), dget st.m a = some mv → dget st.s a = some sv → sv ≠ 0 →
+        Ucb.learn fl st a r =
+          .ok { t := st.t + 1, m := dset st.m a (Ex.evalF fl [(sv : Rat), mv, r] Coba.Generated.C16.ucbMeanExpr), s := dset st.s a (sv + 1) }) :=
+  update_exprs_match' fl
 
 end Coba.C16
